@@ -1,7 +1,4 @@
-use crate::{
-    algorithms::community::partitions, Edge, EdgeDedupeStrategy, Error, ErrorKind, Graph,
-    GraphSpecs, Node,
-};
+use crate::{Edge, EdgeDedupeStrategy, Error, ErrorKind, Graph, GraphSpecs, Node};
 use itertools::Itertools;
 use rand::prelude::*;
 use rand::seq::SliceRandom;
@@ -93,7 +90,7 @@ where
         .collect::<HashMap<T, usize>>();
     let mut graphu = convert_graph(graph, weighted, &node_map);
     let partition = map_node_names_to_hashsets(&graphu);
-    let mut modularity = partitions::modularity(&graphu, &partition, weighted, resolution).unwrap();
+    let mut modularity = fixed_order_modularity(&graphu, &partition, weighted, resolution);
     let m = sorted_edges(&graphu).iter().map(|e| e.weight).sum::<f64>();
     let (mut partition, mut inner_partition, _improvement) =
         compute_one_level(&graphu, m, &partition, resolution.unwrap_or(1.0), seed);
@@ -103,8 +100,7 @@ where
         #[cfg(feature = "verif-hooks")]
         crate::verif_hooks::tick("louvain_level");
         partitions.push(partition.to_vec());
-        let new_mod =
-            partitions::modularity(&graphu, &inner_partition, weighted, resolution).unwrap();
+        let new_mod = fixed_order_modularity(&graphu, &inner_partition, weighted, resolution);
         if new_mod - modularity <= _threshold {
             return Ok(convert_usize_partitons_to_t(partitions, &node_map));
         }
@@ -479,6 +475,57 @@ where
         // *acc.get_mut(node2com.get(v).as_ref().unwrap()).unwrap() += edge.weight;
         acc
     })
+}
+
+/// The modularity of `communities` (a partition of the working graph), computed with every sum
+/// taken in a fixed order (edges sorted by endpoints, communities by index). The value decides
+/// whether another level is computed, so it must not depend on hash-map iteration order:
+/// `partitions::modularity` adds degrees and edge weights in that order and, for a gain that is
+/// zero up to rounding, lands on either side of the threshold from one call to the next.
+fn fixed_order_modularity(
+    graph: &Graph<usize, HashSet<usize>>,
+    communities: &[HashSet<usize>],
+    weighted: bool,
+    resolution: Option<f64>,
+) -> f64 {
+    let mut node2com: HashMap<usize, usize> = HashMap::new();
+    for (i, community) in communities.iter().enumerate() {
+        for n in community {
+            node2com.insert(*n, i);
+        }
+    }
+    let k = communities.len();
+    let mut inner = vec![0.0; k];
+    let mut out_sum = vec![0.0; k];
+    let mut in_sum = vec![0.0; k];
+    let mut total = 0.0;
+    for e in sorted_edges(graph) {
+        let w = if weighted { e.weight } else { 1.0 };
+        let (cu, cv) = (node2com[&e.u], node2com[&e.v]);
+        total += w;
+        if cu == cv {
+            inner[cu] += w;
+        }
+        match graph.specs.directed {
+            true => {
+                out_sum[cu] += w;
+                in_sum[cv] += w;
+            }
+            false => {
+                out_sum[cu] += w;
+                out_sum[cv] += w;
+            }
+        }
+    }
+    let gamma = resolution.unwrap_or(1.0);
+    (0..k)
+        .map(|c| match graph.specs.directed {
+            true => inner[c] / total - gamma * out_sum[c] * in_sum[c] * (1.0 / total).powf(2.0),
+            false => {
+                inner[c] / total - gamma * out_sum[c] * out_sum[c] * (1.0 / (2.0 * total)).powf(2.0)
+            }
+        })
+        .sum()
 }
 
 /// The edges of a graph in a fixed order (by endpoints), independent of hash-map iteration order.
